@@ -26,6 +26,9 @@ LAYOUTS = {
     "partial": [['p', 'bin', 1], ['q', 'bin', 3]],
     "counted": [['c', 'arr', 2, [0, 3]]],
     "auto": None,
+    # collections (partitioned / multi-range arrays) that some values miss
+    "partial_counted": [['c', 'arr', 2, [0, 2]]],
+    "partial_multi": [['m', 'arr', None, 0, 2]],
 }
 
 
